@@ -291,6 +291,7 @@ func TestC08(t *testing.T) {
 	r := core.Begin(t, "C08")
 	defer r.End()
 	core.DFS(r, core.Check[leafCase]{Name: "leaf-pools", Gen: genLeafCase, Exec: execLeaf("C08"), NoJournal: true}, 0)
+	core.DFS(r, core.Check[mixedCase]{Name: "mixed-primitives", Gen: genMixed, Exec: execMixed("C08"), NoJournal: true}, 0)
 	core.Rapid(r, core.Check[poolCase]{Name: "composite-pools", Gen: genPool(true), Exec: execPool("C08")}, r.N(1500, 15000))
 	core.Rapid(r, core.Check[typedPoolCase]{Name: "typed-composites", Gen: genTypedPool, Exec: execTypedPool("C08")}, r.N(800, 8000))
 	core.Rapid(r, core.Check[mutantCase]{Name: "copies-and-mutants", Gen: genMutantBase, Exec: execMutants}, r.N(1500, 15000))
